@@ -7,7 +7,7 @@ CONSTANTS
     MaxN = 5
     Ks = {2}
     MaxIters = {1, 2, 3}
-    LCM = 60
+    FullLayer = FALSE
     ShowSwap = FALSE
     RowSum = 0
     ShowEmpty = FALSE
